@@ -28,6 +28,7 @@ var scopeTable = []scopeEntry{
 	// rejection funnel
 	sc("CMD-1", `:propagates`, "C05", "C07"),
 	sc("CMD-1", `:rejected=>returned@`, "C07"),
+	sc("CMD-1", `:verdict\[`, "C01", "C04", "C09", "C10", "C11"),
 	sc("CMD-1", `:reject\[Errorf`, "C01", "C04", "C07"),
 	sc("CMD-1", `:reject\[`, "C01", "C04", "C07", "C13", "C19"),
 	// compile path
@@ -43,15 +44,22 @@ var scopeTable = []scopeEntry{
 	// policy switch
 	sc("CMD-2", `onError\[error,`, "C07"),
 	sc("CMD-2", `onError\[(help|version),`, "C14"),
+	// help branch: --help shows the long description
+	sc("CMD-3", `:help-branch`, "C14", "C17"),
+	sc("CMD-3", `.`, "C14"),
 	// help scan
-	sc("CMD-4", `:(every-token-tested|index-of-help|none-found)`, "C14"),
+	sc("CMD-4", `:(every-token-tested|index-of-help|none-found|help-token-found)`, "C14"),
 	// version
 	sc("CMD-5", `:(version-branch|version-first)`, "C14"),
 	sc("CMD-5", `\.Version$`, "C14"),
 	// routing
 	sc("CMD-6", `:help-descent`, "C14"),
-	sc("CMD-6", `:(descent|own-tokens|split)`, "C04", "C07"),
-	sc("CMD-6", `^writers\(Cmd\.fsm\)`, "C04"),
+	sc("CMD-6", `:split`, "C04", "C07", "C10"), // the split compares whole tokens with aliases: it never looks inside an option token
+	sc("CMD-6", `:(descent|own-tokens)`, "C04", "C07"),
+	sc("CMD-7", `getOptsAndArgs$|level-split`, "C04", "C10"),
+	sc("CMD-7", `.`, "C04"),
+	sc("CMD-6", `^writers\(Cmd\.fsm\)`, "C02", "C04", "C15"), // an automaton compiled elsewhere binds into another command's containers
+	sc("CMD-6", `.`, "C04", "C07", "C14"),
 	// registration
 	sc("DECL-4", `:listed|^writers\(Cmd\.options`, "C10", "C16", "C18"), // [OPTIONS] is derived from the list
 	sc("DECL-4", `.`, "C10", "C18"),
@@ -61,6 +69,9 @@ var scopeTable = []scopeEntry{
 	sc("DECL-5", `^writers\(Cmd\.argsIdx\)`, "C18"),
 	// hook chain
 	sc("FLOW-1", `:(Before-step|After-step|root-steps)`, "C05"),
+	// the search: an env-backed option matches without a token, so its transition must be offered too
+	sc("FSM-3", `:(offer-all|record-all)`, "C01", "C11", "C12"),
+	sc("FSM-3", `.`, "C01", "C11"),
 	// contexts
 	sc("FSM-4", `:context-follows-branch`, "C02", "C09", "C15"), // the context carries the options-ended flag
 	sc("FSM-4", `:(merge-on-success|root-context)`, "C02", "C15"),
@@ -79,9 +90,14 @@ var scopeTable = []scopeEntry{
 	sc("FSM-6", `^writers\(\*ValueSetByUser\)`, "C15"),
 	// help
 	sc("HELP-1", `:(argument-rows|option-rows|command-rows|description)`, "C17"),
-	sc("HELP-1", `:parents`, "C14", "C17"),
+	sc("HELP-1", `:parents`, "C07", "C14", "C17"), // C07: the usage of the rejecting command names its full path
+	sc("HELP-1", `:usage-line`, "C07", "C14", "C16", "C17"),
+	sc("HELP-1", `.`, "C14", "C16", "C17"),
+	// the group matcher
+	sc("MAT-6", `:gives-up`, "C01", "C11", "C12"),
+	sc("MAT-6", `.`, "C12", "C03", "C10"),
 	// matcher loops and bounds
-	sc("MAT-12", `:bounds@`, "C03"),
+	sc("MAT-12", `:(str)?bounds@`, "C03"),
 	// options-ended flag and the `--` token
 	sc("MAT-3", `:stops-at-dashdash`, "C01", "C02", "C09", "C15"),
 	sc("MAT-3", `optsEnd\.Match$`, "C01", "C02", "C09"), // a literal -- behind the marker is a positional, verbatim
@@ -122,6 +138,9 @@ func applyScopes(r *Rule, obs []report.Obligation) {
 				o.OnlyFor = ps
 			}
 			continue
+		}
+		if o.Construct == "floor" || strings.HasPrefix(o.Construct, "anchor:") || o.Status == report.Undecided {
+			continue // fail-closed items stay with every property of the rule
 		}
 		for _, e := range scopeTable {
 			if e.rule == r.ID && e.construct.MatchString(o.Construct) {
